@@ -111,6 +111,9 @@ class ObsScheduler(L.Scheduler):
     async def enqueue_task(self, name, *a, **kw):
         tid = await L.Scheduler.enqueue_task(self, name, *a, **kw)
         self._world.on_enqueued(name, tid)
+        cb = self._world.on_enqueued_cb
+        if cb is not None:
+            cb(name, tid, kw.get("script", a[0] if a else None), kw.get("deps", a[3] if len(a) > 3 else []))
         return tid
 
     def get_task_states(self):
@@ -268,6 +271,7 @@ class PoolWorld:
         self.tasks_by_name = {}
         self.last_snapshot = None
         self.last_issued = None
+        self.on_enqueued_cb = None
         self.conns = {}
         self.probes = {}
         self.faults = {}
